@@ -24,8 +24,18 @@ DOM = {
 }
 ORDER = ['indent', 'width', 'ribbon_width', 'depth', 'max_seq_len', 'sort_dict_keys']
 
+class Odd:
+    """no registered printer: printed as its repr, which ends in blanks and line breaks (the two renderers must trim alike)"""
+    def __init__(self, text):
+        self.text = text
+
+    def __repr__(self):
+        return self.text
+
+
 VALUES = [
     {'b': [1, 2, 3, 4, 5, 6], 'a': 'x' * 30, 'c': {'n': {'m': (1, 2)}}},
+    Odd('Odd 1 2 \n\n'), Odd('trailing blanks   '), [Odd('inner \n'), 1],
     [[1, [2, [3, [4]]]], 'word ' * 12, {3: 'c', 1: 'a', 2: 'b'}],
     list(range(30)),
 ]
@@ -115,6 +125,7 @@ def chunk_fn(cases):
                 s3 = io.StringIO()
                 pp.PrettyPrinter(stream=s3, end=end, **explicit).pprint(value)
                 obs['PrettyPrinter.pprint'] = s3.getvalue()
+                obs['pformat(all six explicit)'] = pp.pformat(value, **e_spec)
                 obs['pretty_repr'] = repr(Registered(value))
                 obs['pformat(Registered)'] = pp.pformat(Registered(value))
         except Exception as e:
@@ -163,6 +174,8 @@ def chunk_fn(cases):
             bad = 'PrettyPrinter.pprint != pformat + end'
         elif obs['pretty_repr'] != obs['pformat(Registered)']:
             bad = 'pretty_repr != pformat for a registered type'
+        elif obs['pformat(all six explicit)'] != obs['pformat']:
+            bad = 'an explicit argument is not honoured or a missing one does not take the configured default: pformat(v, **given) != pformat(v, **effective)'
         elif dflt != d_spec:
             bad = 'get_default_config %r != the settings given to set_default_config %r' % (dflt, d_spec)
         if bad and len(fails) < 3:
